@@ -170,3 +170,10 @@ CORPUS += [
         "                    ReparameterizedTimeTreeModel.from_json(\n                        dict(tree_model, keep_branch_lengths=True), {\"taxa\": taxa_obj}\n                    )\n                )\n\n                ratios = Parameter.json_factory(",
         mode='text', expect=[('C19.U', 'cli.evolution::create_tree_model::tree_model::helper-objects-built-alike')]),
 ]
+CORPUS += [
+    Mut('c19-branch-model-built-without-the-requested-rate', 'torchtree/cli/evolution.py', '', "        treelikelihood_model[\"branch_model\"] = create_branch_model(\n            \"branchmodel\", tree_id, len(taxa[\"taxa\"]), arg, rate_init\n        )\n",
+        "        treelikelihood_model[\"branch_model\"] = create_branch_model(\n            \"branchmodel\", tree_id, len(taxa[\"taxa\"]), arg\n        )\n", mode='text',
+        expect=[('C19.U', 'cli.evolution::create_tree_likelihood::create_branch_model(…)::passes-rate_init')]),
+    Mut('c19-benign-requested-rate-passed-by-keyword', 'torchtree/cli/evolution.py', '', "        treelikelihood_model[\"branch_model\"] = create_branch_model(\n            \"branchmodel\", tree_id, len(taxa[\"taxa\"]), arg, rate_init\n        )\n",
+        "        treelikelihood_model[\"branch_model\"] = create_branch_model(\n            \"branchmodel\", tree_id, len(taxa[\"taxa\"]), arg, rate_init=rate_init\n        )\n", mode='text', benign=True),
+]
